@@ -1391,7 +1391,7 @@ _THRESH_NM = (0.3, 0.5, 0.2, 0.4, None, 0.4, None)
 # ancestor one or two levels up, nothing (beyond every threshold / lineage without thresholds)
 # ... and a genome filed directly under the inner taxon alpha, nearer than anything else: the consensus of a conflict can itself be a
 # matched taxon, and its genome the nearest candidate (seeded C10e)
-_LETTERS = ((2, 0.1), (2, 0.4), (2, 0.5), (2, 0.7), (1, 0.1), (1, 0.4), (3, 0.1), (3, 0.5), (5, 0.1), (5, 0.5), (6, 0.1), (0, 0.05))
+_LETTERS = ((2, 0.1), (2, 0.4), (2, 0.5), (2, 0.7), (1, 0.1), (1, 0.4), (3, 0.1), (3, 0.5), (5, 0.1), (5, 0.5), (6, 0.1), (0, 0.05), (0, 0.5), (0, 0.7), (4, 0.1))
 _LETTERS3 = ((2, 0.1), (1, 0.4), (3, 0.1), (3, 0.5), (5, 0.1), (6, 0.1), (0, 0.05))
 
 
